@@ -7,6 +7,7 @@ import (
 	"fmt"
 	"log/slog"
 	"regexp"
+	"slices"
 	"strconv"
 	"strings"
 	"time"
@@ -387,7 +388,16 @@ func reportToGitLabDiscussion(pending PendingComment, diffs []*gitlab.MergeReque
 		},
 	}
 
-	dl, ok := diffLineFor(parseDiffLines(diff.Diff), pending.line)
+	lines := parseDiffLines(diff.Diff)
+	if pending.anchor == checks.AnchorBefore {
+		// Problems on removed rules carry line numbers of the old version of the file.
+		if dl, ok := removedLineFor(lines, pending.line); ok {
+			d.Position.OldLine = gitlab.Ptr(dl.old)
+			return &d
+		}
+	}
+
+	dl, ok := diffLineFor(lines, pending.line)
 	switch {
 	case !ok:
 		// No diffLine for this line, most likely unmodified ?.
@@ -421,9 +431,23 @@ type diffLine struct {
 	old         int
 	new         int
 	wasModified bool
+	wasRemoved  bool
+}
+
+// removedLineFor finds a line removed by the diff using its number in the old version of the file.
+func removedLineFor(lines []diffLine, line int) (diffLine, bool) {
+	for _, dl := range lines {
+		if dl.wasRemoved && dl.old == line {
+			return dl, true
+		}
+	}
+	return diffLine{old: 0, new: 0, wasModified: false, wasRemoved: false}, false
 }
 
 func diffLineFor(lines []diffLine, line int) (diffLine, bool) {
+	lines = slices.DeleteFunc(slices.Clone(lines), func(dl diffLine) bool {
+		return dl.wasRemoved
+	})
 	if len(lines) == 0 {
 		return diffLine{old: 0, new: 0, wasModified: false}, false
 	}
@@ -475,6 +499,7 @@ func parseDiffLines(diff string) (lines []diffLine) {
 				newLine, _ = strconv.Atoi(matches[3])
 			}
 		case strings.HasPrefix(line, "-"):
+			lines = append(lines, diffLine{old: oldLine, new: 0, wasModified: true, wasRemoved: true})
 			oldLine++
 		case strings.HasPrefix(line, "+"):
 			lines = append(lines, diffLine{old: oldLine, new: newLine, wasModified: true})
